@@ -40,9 +40,11 @@ def main():
     os.makedirs(ROOT + '/coverage', exist_ok=True)
     open(f'{ROOT}/coverage/{eng}.func.txt', 'w').write(out)
     anchors = set()
+    served = {a[0] for a in specs}
     for l in open(ROOT + '/properties.jsonl'):
         o = json.loads(l)
-        for f in o['anchors']['files']: anchors.add(f)
+        if o['id'] in served:
+            for f in o['anchors']['files']: anchors.add(f)
     unc = []
     tot = cov = 0
     for line in out.splitlines():
